@@ -76,10 +76,8 @@ func (v *Validator) Validate(value interface{}, checkAll ...bool) error {
 			if strings.Contains(eh.StringSelector(), tagexpr.ExprNameSeparator) {
 				return nil
 			}
+			// (a nil result - a nil pointer, a missing key - is false like 0 and '')
 			r := eh.Eval()
-			if r == nil {
-				return nil
-			}
 			rerr, ok := r.(error)
 			if !ok && tagexpr.FakeBool(r) {
 				return nil
